@@ -92,7 +92,7 @@ theorem step_soup_unblocked (c : Cfg) (s : Sys D) (act : Act) :
   | crash x => exact fun m hm => Or.inl hm
   | net cuts => exact fun m hm => Or.inl hm
   | drop m0 hm0 hc => exact fun m hm => Or.inl (List.mem_of_mem_erase hm)
-  | tick a shuf ha => exact commit_soup_unblocked s _ _ _ _ (fun _ h => h)
+  | tick a shuf ha _ => exact commit_soup_unblocked s _ _ _ _ (fun _ h => h)
   | msg m0 hm0 hc => exact commit_soup_unblocked s _ _ _ _ (fun _ h => List.mem_of_mem_erase h)
   | ind a x shuf t ha hp hk hf => exact commit_soup_unblocked s _ _ _ _ (fun _ h => h)
   | susp a x t ha hp hk hf => exact commit_soup_unblocked s _ _ _ _ (fun _ h => h)
